@@ -82,12 +82,33 @@ func (h OperatorHooksWrapper) AfterOperatorKeyRemovalInitiated(
 	consAddr := key.ToConsAddr()
 	if chainID == avstypes.ChainIDWithoutRevision(ctx.ChainID()) {
 		_, found := h.keeper.GetExocoreValidator(ctx, consAddr)
+		if !found {
+			// the key may have been replaced during this epoch. in that case, the previous
+			// key is the one that is validating (until the epoch ends), and the opt out
+			// must wait for the unbonding period like any other.
+			hasPrevKey, prevKey, _ := h.keeper.operatorKeeper.GetOperatorPrevConsKeyForChainID(
+				ctx, operator, chainID,
+			)
+			if hasPrevKey {
+				_, found = h.keeper.GetExocoreValidator(ctx, prevKey.ToConsAddr())
+			}
+		}
 		if found {
 			h.keeper.SetOptOutInformation(ctx, operator)
 		} else {
-			h.keeper.operatorKeeper.DeleteOperatorAddressForChainIDAndConsAddr(
-				ctx, chainID, consAddr,
-			)
+			// neither the current nor the previous key is in the validator set, so there is
+			// nothing to wait for. complete the removal immediately; otherwise, the removal
+			// marker and the forward lookups are never cleared (no epoch is scheduled to do
+			// so), the operator can never set a key again, and the key, whose reverse lookup
+			// would be the only thing deleted, can be claimed by another operator while
+			// this operator still holds it.
+			if err := h.keeper.operatorKeeper.CompleteOperatorKeyRemovalForChainID(
+				ctx, operator, chainID,
+			); err != nil {
+				h.keeper.Logger(ctx).Error(
+					"error completing operator key removal", "error", err,
+				)
+			}
 		}
 	}
 }
